@@ -3,7 +3,8 @@ import Agd.Model.Sha256
 import Agd.Driver.Util
 /-! Line-protocol driver for the C11 model.  Byte strings travel hex-encoded (`-` = empty).
 
-* `reset i TEXT`            → `ok n` | `err`          (Storage.Reset on storage i ∈ {0,1,2})
+* `reset i TEXT`            → `ok n` | `err`          (Storage.Reset on storage i)
+* `new i TEXT`              → `ok` | `err`            (storage i := NewStorage(TEXT); empty on error)
 * `matches i HOST`          → `1` | `0`               (Storage.Matches)
 * `hashes i P1 P2 …`        → hex digests | `-`       (Storage.Hashes, prefixes as 4 hex chars)
 * `prefixes STR`            → `err` | prefixes | `-`  (prefixesFromStr)
@@ -38,6 +39,11 @@ def fromHex (s : String) : Bytes := if s == "-" then [] else fromHexChars s.toLi
 def showList (l : List Bytes) : String :=
   if l.isEmpty then "-" else " ".intercalate (l.map toHex)
 
+/-- Digests as the code returns them: the model's `hexEncode`, as text. -/
+def showDigests (l : List Bytes) : String :=
+  if l.isEmpty then "-" else
+  " ".intercalate (l.map fun b => String.ofList ((hexEncode b).map fun c => Char.ofNat c.toNat))
+
 structure S where
   stores : Nat → Store := fun _ => Store.empty
   cfg : MatcherCfg := []
@@ -59,8 +65,12 @@ def step (s : S) : List String → S × String
     let r := reset H (s.stores (nat! i)) (fromHex text)
     ({ s with stores := resetAt H s.stores (nat! i) (fromHex text) },
       match r.2 with | some n => s!"ok {n}" | none => "err")
+  | ["new", i, text] =>
+    let r := newStorage H (fromHex text)
+    ({ s with stores := fun j => if j = nat! i then r.1.getD Store.empty else s.stores j },
+      match r.2 with | some _ => "ok" | none => "err")
   | ["matches", i, host] => (s, showB («matches» H (s.stores (nat! i)) (fromHex host)))
-  | "hashes" :: i :: prefs => (s, showList (hashes (s.stores (nat! i)) (prefs.map fromHex)))
+  | "hashes" :: i :: prefs => (s, showDigests (hashes (s.stores (nat! i)) (prefs.map fromHex)))
   | ["prefixes", str] =>
     (s, match prefixesFromStr (fromHex str) with | none => "err" | some ps => showList ps)
   | ["ps", d, suf, icann] => ({ s with table := (fromHex d, (fromHex suf, bool! icann)) :: s.table }, "ok")
@@ -73,10 +83,10 @@ def step (s : S) : List String → S × String
   | "matcher" :: rest => ({ s with cfg := parseCfg rest }, "ok")
   | ["txt", host, qt] =>
     (s, match respond s.stores s.cfg (fromHex host) (nat! qt) with
-        | .pass => "pass" | .refused => "refused" | .txt hs => "txt " ++ showList hs)
+        | .pass => "pass" | .refused => "refused" | .txt hs => "txt " ++ showDigests hs)
   | ["mbp", host] =>
     (s, match matchByPrefix s.stores s.cfg (fromHex host) with
-        | .notMatched => "nomatch" | .err => "err" | .ok hs => "ok " ++ showList hs)
+        | .notMatched => "nomatch" | .err => "err" | .ok hs => "ok " ++ showDigests hs)
   | _ => (s, "bad-op")
 
 def main : IO Unit := loop step {}
